@@ -247,15 +247,15 @@ pub fn def(tier: Tier) -> PropertyDef {
         rule: "M-ARGS: 0..12 typed values (bool, u/i 8..64, f32/f64 incl. NaN/inf/-0/extremes, utf8/ascii strings incl. empty, NUL/double NUL terminated, CR/LF/TAB, invalid utf-8, cp1252 bytes, raw) encoded by (i) the harness' reference encoder, (ii) payload_from_args, (iii) the serde Serializer, both byte orders (iii: host); oracle: decoded args = values (type info, raw bytes), text = canonical rendering (floats parse back bit-exactly); truncation at generated cut points and single type-info/length corruptions decode to the untouched prefix inside the payload. Non-trivial: >= 3 args of >= 2 kinds.",
         assumptions: vec!["String::from_utf8_lossy and encoding_rs WINDOWS_1252 are trusted for the expected string text", "raw data is rendered as lower-case hex pairs separated by one space"],
         subs: vec![
-            sub("decode_text", tier.pick(100_000, 3_000_000), (vals.clone(), any::<bool>(), 0u8..2), check_decode)
+            sub("decode_text", tier.pick(500_000, 8_000_000), (vals.clone(), any::<bool>(), 0u8..2), check_decode)
                 .rates(&[("empty_string_or_raw", 0.1), ("float", 0.3), ("invalid_utf8", 0.05), ("big_endian", 0.3), ("payload_from_args", 0.3)])
                 .boxed(),
-            sub("decode_text_huge", tier.pick(600, 20_000), (huge, any::<bool>(), 0u8..2), check_decode).rates(&[("huge_string", 0.8)]).boxed(),
-            sub("serde_encoder", tier.pick(50_000, 1_000_000), prop::collection::vec(sval, 0..10), check_serde).boxed(),
-            sub("truncate_corrupt", tier.pick(100_000, 3_000_000), (vals, any::<bool>(), 0u8..3, any::<u16>(), any::<u16>()), check_fault)
+            sub("decode_text_huge", tier.pick(3_000, 40_000), (huge, any::<bool>(), 0u8..2), check_decode).rates(&[("huge_string", 0.8)]).boxed(),
+            sub("serde_encoder", tier.pick(300_000, 4_000_000), prop::collection::vec(sval, 0..10), check_serde).boxed(),
+            sub("truncate_corrupt", tier.pick(500_000, 8_000_000), (vals, any::<bool>(), 0u8..3, any::<u16>(), any::<u16>()), check_fault)
                 .rates(&[("truncated", 0.2), ("typeinfo_bit_flipped", 0.2), ("length_field_corrupted", 0.1)])
                 .boxed(),
-            crate::fuzzing::fuzz_sub("args", "fuzz_args", tier.pick(5_000, 50_000)),
+            crate::fuzzing::fuzz_sub("args", "fuzz_args", tier.pick(50_000, 500_000)),
         ],
         workers: 16,
     }
